@@ -20,6 +20,9 @@ pub enum Act {
   UsingDrop(usize),
   /// ... and the guard goes out of scope because its owner panics (dropped while unwinding)
   UsingDropUnwinding(usize),
+  /// a copy of root r's Subscription is put under a `utils::Using` guard that stays in scope to the
+  /// end of the run; unsubscribe() is then called on the other copy
+  UnsubGuarded(usize),
   /// declaration (a no-op as a step): when root `outer`'s subscriber receives
   /// `trig`, its callback subscribes root `inner` to the same Observable value
   Nest { outer: usize, trig: Trig, inner: usize },
@@ -35,6 +38,10 @@ pub enum Act {
   /// emit `.1` into hot source `.0`; the first time the library clones an item during that emission,
   /// the item's Clone pushes `.2` into the same source (user code inside Item::clone). Real run only.
   EmitCloneFeed(usize, Ev, Ev),
+  /// emit `.1` into hot source `.0`; the first user function of the pipeline (map's f, a predicate, an
+  /// accumulator, a selector ...) that the library calls during that emission pushes `.2` into the same
+  /// source before it returns its result. Real run only.
+  EmitFnFeed(usize, Ev, Ev),
   /// declaration: the first time the pipeline's `tap` runs its next side effect, that closure
   /// subscribes root `inner` to the same Observable value
   NestFromTap { inner: usize },
@@ -94,11 +101,13 @@ impl Case {
         Act::Unsub(r) => format!("unsub#{}", r),
         Act::UsingDrop(r) => format!("drop-using#{}", r),
         Act::UsingDropUnwinding(r) => format!("drop-using-while-unwinding#{}", r),
+        Act::UnsubGuarded(r) => format!("unsub#{}[a copy is under a Using guard still in scope]", r),
         Act::Nest { outer, trig, inner } => format!("[#{} subscribes #{} from its callback at {:?}]", outer, inner, trig),
         Act::Feed { outer, trig, src, ev } => format!("[#{}'s callback at {:?} pushes {} into s{}]", outer, trig, ev.show(), src),
         Act::SelfUnsub { outer, trig } => format!("[#{}'s callback at {:?} unsubscribes #{}]", outer, trig, outer),
         Act::InnerUnsub(r, k) => format!("unsub-inner#{}.{}", r, k),
         Act::EmitCloneFeed(i, e, f) => format!("s{}!{} [the item's Clone pushes {} into s{}]", i, e.show(), f.show(), i),
+        Act::EmitFnFeed(i, e, f) => format!("s{}!{} [the first operator function called pushes {} into s{}]", i, e.show(), f.show(), i),
         Act::NestFromTap { inner } => format!("[tap's side effect subscribes #{}]", inner),
         Act::Emit(i, e) => format!("s{}!{}", i, e.show()),
       })
@@ -592,6 +601,7 @@ pub fn run_real(case: &Case, opts: &RunOpts) -> Trace {
     *rec.pushers.lock().unwrap() = env.push.clone();
     drop(env);
     let mut subs: Vec<Option<Subscription<'static>>> = (0..n_roots).map(|_| None).collect();
+    let mut guards: Vec<utils::Using<'static>> = vec![];
     for (step, act) in case.acts.iter().enumerate() {
       rec.step.store(step, Ordering::Relaxed);
       match act {
@@ -622,6 +632,15 @@ pub fn run_real(case: &Case, opts: &RunOpts) -> Trace {
             crate::s_val::arm_clone_hook(None);
           }
         }
+        Act::EmitFnFeed(i, ev, fed) => {
+          let p = rec.pushers.lock().unwrap().get(*i).cloned();
+          if let Some(p) = p {
+            let (p2, fed2) = (p.clone(), fed.clone());
+            crate::s_val::arm_fn_hook(Some(Box::new(move || p2(&fed2))));
+            p(ev);
+            crate::s_val::arm_fn_hook(None);
+          }
+        }
         Act::Unsub(r) => {
           if let Some(s) = &subs[*r] {
             s.unsubscribe()
@@ -631,6 +650,12 @@ pub fn run_real(case: &Case, opts: &RunOpts) -> Trace {
           if let Some(s) = &subs[*r] {
             let guard = utils::Using::new(s.clone());
             drop(guard);
+          }
+        }
+        Act::UnsubGuarded(r) => {
+          if let Some(s) = &subs[*r] {
+            guards.push(utils::Using::new(s.clone()));
+            s.unsubscribe();
           }
         }
         Act::UsingDropUnwinding(r) => {
@@ -668,6 +693,7 @@ pub fn run_real(case: &Case, opts: &RunOpts) -> Trace {
     // step number beyond the history and is not compared): a live subscription legitimately keeps
     // its pipeline alive, and over 10^8 runs that memory adds up
     rec.step.store(case.acts.len(), Ordering::Relaxed);
+    drop(guards);
     for s in subs.iter().flatten() {
       if s.is_subscribed() {
         s.unsubscribe();
@@ -772,14 +798,14 @@ pub fn run_ref(case: &Case) -> Trace {
     match act {
       Act::Sub(r) => roots[*r] = Some(w.subscribe_root(&case.pipeline, rec_id(*r))),
       Act::Emit(i, ev) => w.hot_emit(*i, ev.clone()),
-      Act::Unsub(r) | Act::UsingDrop(r) | Act::UsingDropUnwinding(r) => {
+      Act::Unsub(r) | Act::UsingDrop(r) | Act::UsingDropUnwinding(r) | Act::UnsubGuarded(r) => {
         if let Some(id) = roots[*r] {
           w.unsubscribe_root(id)
         }
       }
       Act::Nest { .. } => {}
       Act::Feed { .. } | Act::SelfUnsub { .. } | Act::NestFromTap { .. } => {}
-      Act::EmitCloneFeed(..) => panic!("MACHINERY: EmitCloneFeed has no reference semantics; reference-free oracles only"),
+      Act::EmitCloneFeed(..) | Act::EmitFnFeed(..) => panic!("MACHINERY: EmitCloneFeed/EmitFnFeed have no reference semantics; reference-free oracles only"),
       Act::InnerUnsub(r, k) => {
         // only an inner observable the subscriber has been handed already can be unsubscribed
         if w.all.iter().any(|(rc, e)| *rc == rec_id(*r) && *e == Ev::N(D::Inner(*k))) {
